@@ -41,6 +41,11 @@ IMP = ["Lib.Base", "Lib.PyStr", "Lib.MsgSchema", "Model.Msg", "Model.MsgRules", 
 LISTK = ("list", "spsep")
 
 
+# key type needed, key-management algorithm (everything cryptojwt implements) and content encryption algorithms
+JWE_ALGS = [("RSA", "RSA1_5"), ("RSA", "RSA-OAEP"), ("RSA", "RSA-OAEP-256"), ("oct", "A128KW"), ("oct", "A192KW"), ("oct", "A256KW"),
+            ("EC", "ECDH-ES"), ("EC", "ECDH-ES+A128KW"), ("EC", "ECDH-ES+A192KW"), ("EC", "ECDH-ES+A256KW")]
+JWE_ENCS = ["A128CBC-HS256", "A192CBC-HS384", "A256CBC-HS512", "A128GCM", "A192GCM", "A256GCM"]
+
 def strict_eq(a, b):
     return json.dumps(a, sort_keys=True, default=repr) == json.dumps(b, sort_keys=True, default=repr)
 
@@ -722,6 +727,8 @@ class Run:
         C.check_cases(ctx, imp, "pystr * res (list (pystr * pystr))", "chk_parse_qsl", "parse_qsl", pq, "parseqsl")
 
     # ---- JWT / JWE: oracle only (crypto and JSON text are trusted)
+    jwe_sweep_left = 3
+
     def jwt(self):
         from cryptojwt.key_jar import build_keyjar
         from idpyoidc.message.oidc import IdToken
@@ -791,6 +798,45 @@ class Run:
                     continue
                 judge_jw("jwe", before, attempt(lambda: cls().from_jwe(w[1], ek)), rec)
                 ctx.count("roundtrip:jwe:" + alg)
+            # the encrypted JWT as a wire format of its own: every key-management algorithm x content encryption the
+            # JOSE library offers, written with to_jwe (and, for the signed variant, to_jwt wrapped into a JWE) and read
+            # back the way a receiver does, with from_jwt and its key jar
+            combos = [(kt, alg, enc) for kt, alg in JWE_ALGS for enc in JWE_ENCS]
+            picks = rng.sample(combos, 3 if ctx.quick else 12)
+            if self.jwe_sweep_left > 0:        # a full sweep over the algorithms on the first classes
+                self.jwe_sweep_left -= 1
+                picks = [(kt, alg, rng.choice(JWE_ENCS)) for kt, alg in JWE_ALGS] + picks
+            for kt, alg, enc in picks:
+                m = cls(**copy.deepcopy(kw))
+                before = canon(dict(m._dict))
+                rec = {"class": name, "kwargs": canon(kw), "jwe_via_from_jwt": [alg, enc]}
+                ek = kj.get_encrypt_key(kt, "")
+                w = attempt(lambda: m.to_jwe(ek, alg=alg, enc=enc))
+                ctx.case_seen(rec, w[0] == "ok")
+                if w[0] == "exc":
+                    self.violation("jwe", cls, None, before, {}, w[1], rec)
+                    continue
+                judge_jw("jwe", before, attempt(lambda: cls().from_jwt(w[1], kj)), rec)
+                ctx.count("roundtrip:jwe-from_jwt:" + alg)
+                if not is_idt:
+                    # signed, then encrypted
+                    from cryptojwt.jwe.jwe import JWE
+                    skt, salg = rng.choice(sig)
+                    iss = m._dict.get("iss", "")
+                    iss = iss if isinstance(iss, str) else ""
+                    if iss and iss not in kj:
+                        kj.import_jwks(jwks, iss)
+                        kj.add_symmetric(iss, "A1B2C3D4E5F6G7H8A1B2C3D4E5F6G7H8")
+                    sw = attempt(lambda: m.to_jwt(key=kj.get_signing_key(skt, iss), algorithm=salg))
+                    if sw[0] == "exc":
+                        continue
+                    rec2 = {"class": name, "kwargs": canon(kw), "jws_in_jwe": [salg, alg, enc]}
+                    w2 = attempt(lambda: JWE(sw[1], alg=alg, enc=enc, cty="JWT").encrypt(keys=ek))
+                    if w2[0] == "exc":
+                        self.violation("jwe", cls, None, before, {}, w2[1], rec2)
+                        continue
+                    judge_jw("jwe", before, attempt(lambda: cls().from_jwt(w2[1], kj)), rec2)
+                    ctx.count("roundtrip:jws-in-jwe:" + alg)
 
     def run_model(self):
         ctx = self.ctx
